@@ -53,6 +53,8 @@ def _slim(d):
 
 def directed():
     return [
+        # found by the thorough tier: the area-sum self-check used an absolute tolerance (large decimal die)
+        {'cls': 'valid', 'die': {'fam': 'odd_1234.567', 'W': 46913.546, 'H': 45678.979, 'regions': [[20987.639, 617.2835, 41975.278, 1234.567, '#'], [44444.412, 617.2835, 4938.268, 1234.567, 'LUT'], [40740.711, 1851.8505, 9876.536, 1234.567, '#']], 'fixed': {}, 'struct': 'tjunction'}, 'entry': 'text'},
         {"cls": "valid", "die": {"fam": "dec_0.1", "W": 0.6, "H": 0.3, "regions": [[0.25, 0.2, 0.5, 0.2, "#"]], "fixed": {}, "struct": "directed"}, "entry": "tree"},
         {"cls": "valid", "die": {"fam": "dec_0.1", "W": 0.6, "H": 0.3, "regions": [[0.25, 0.2, 0.5, 0.2, "#"]], "fixed": {}, "struct": "directed"}, "entry": "text"},
         {"cls": "valid", "die": {"fam": "dec_0.1", "W": 1.1, "H": 0.7, "regions": [[1.0, 0.35, 0.2, 0.7, "LUT"]], "fixed": {}, "struct": "directed"}, "entry": "tree"},
